@@ -1,6 +1,8 @@
 """C15 — a chord symbol computed from pitches denotes exactly those pitches.
 
 ops
+  namec  input = [container kind, pitches]       -> the same through a tuple / set / frozenset / range / dict keys /
+                                                    list of numpy ints (the library itself passes a set)
   name   input = list of MIDI pitches            -> pitches_to_chord_symbol, then the name is interpreted with
                                                     the four chord_symbol_* functions
   parse  input = figure string                   -> chord_symbol_root / bass / pitches / quality
@@ -15,12 +17,18 @@ from vt import coqgen as G
 
 ID = 'C15'
 USE_VM = False
-RULE = ('name: (pitch-class set, bass, first-occurrence order, octave layout, duplicates) drawn from the complete space of '
+RULE = ('name/namec: (pitch-class set, bass, first-occurrence order, octave layout incl. negative / >127 / huge pitches, '
+        'doublings, container type) drawn from the complete space of '
         '4095 sets x bass (all of it in the thorough tier, in several layouts, plus every ordered sequence of <= 4 distinct '
         'pitch classes x bass); parse: figures of the chord grammar = root spelling x every abbreviation of the regenerated '
         'kind table x modification lists x optional bass, plus malformed strings; non-trivial = a name was produced / the '
         'figure was interpreted (not an error); distinct by canonical input')
 ASSUMPTIONS = [
+    'every implementation call is made twice (namer: same argument object; interpreters: shuffled order, then reverse '
+    'order, the returned pitch list vandalised in between), the argument is compared with a copy, and the module-level '
+    'tables are fingerprinted around every call; all operations of a run are interleaved in one process',
+    'pitch collections are lists, tuples, sets, frozensets, ranges, dict key views or lists of numpy integers; a numpy '
+    'ARRAY is outside the documented argument type ("a python list") and raises ValueError on `if not pitches`',
     'chord symbols are modelled after the regex split (root, kind abbreviation, (prefix, degree) list, bass); the split is '
     'done by the library\'s own _split_chord_symbol and _MODIFICATION_REGEX on every parse case; for produced names the '
     'figure string and its four interpretations are compared (the regex may split a name differently from how it was '
@@ -126,23 +134,108 @@ def _lex(fig):
     return [root_str, kind_str, mods, bass_str[1:] if bass_str else '']
 
 
+def _order(key, n):
+    """A call order derived from the case itself (impl() has no rng): differs from case to case."""
+    import random
+    import zlib
+    o = list(range(n))
+    random.Random(zlib.crc32(repr(key).encode())).shuffle(o)
+    return o
+
+
 def _interp(fig):
+    """The four interpreters, called in a case-dependent shuffled order and then again in the reverse order; the
+    list returned by chord_symbol_pitches is vandalised in between (it must not alias module state). A result that
+    changes between the two calls is reported as ['UNSTABLE', first, second]."""
     from note_seq import chord_symbols_lib as csl
-    return [_try(lambda: csl.chord_symbol_root(fig)), _try(lambda: csl.chord_symbol_bass(fig)),
-            _try(lambda: sorted(set(csl.chord_symbol_pitches(fig)))), _try(lambda: csl.chord_symbol_quality(fig))]
+
+    def pitches():
+        raw = csl.chord_symbol_pitches(fig)
+        val = sorted(set(raw))
+        if isinstance(raw, list):
+            raw.append(99)
+            del raw[:]
+        return val
+    fns = [lambda: csl.chord_symbol_root(fig), lambda: csl.chord_symbol_bass(fig), pitches,
+           lambda: csl.chord_symbol_quality(fig)]
+    order = _order(fig, 4)
+    first = [None] * 4
+    for k in order:
+        first[k] = _try(fns[k])
+    for k in reversed(order):
+        again = _try(fns[k])
+        if again != first[k]:
+            first[k] = ['UNSTABLE', first[k], again]
+    return first
 
 
-def impl(case):
+_CONTAINERS = ('list', 'tuple', 'set', 'frozenset', 'range', 'npints', 'dictkeys')
+
+
+def _container(kind, pitches):
+    """The pitch collection handed to the namer (sequences_lib.infer_chords_for_sequence passes a set)."""
+    if kind == 'list':
+        return list(pitches)
+    if kind == 'tuple':
+        return tuple(pitches)
+    if kind == 'set':
+        return set(pitches)
+    if kind == 'frozenset':
+        return frozenset(pitches)
+    if kind == 'range':
+        return range(pitches[0], pitches[0] + len(pitches)) if pitches else range(0)
+    if kind == 'npints':
+        import numpy as np
+        return [np.int64(p) if -2 ** 62 < p < 2 ** 62 else p for p in pitches]
+    if kind == 'dictkeys':
+        return dict.fromkeys(pitches).keys()
+    raise ValueError(kind)
+
+
+def _as_iterated(case):
+    """The pitches in the order the implementation iterates them (what the model is given)."""
+    if case['op'] == 'name':
+        return list(case['input'])
+    return [int(p) for p in _container(case['input'][0], case['input'][1])]
+
+
+def _tables_fp():
     from note_seq import chord_symbols_lib as csl
+    return repr((csl._STEPS_ABOVE, csl._STEPS_MIDI, csl._DEGREE_OFFSETS, csl._SCALE_DEGREES, csl._CHORD_KINDS,
+                 csl._CHORD_KINDS_BY_ABBREV,
+                 [(k, getattr(v[0], '__name__', '?'), v[1]) for k, v in csl._DEGREE_MODIFICATIONS.items()]))
+
+
+_TABLES = [None]
+
+
+def _name(arg, pitches):
+    from note_seq import chord_symbols_lib as csl
+    before = list(arg) if not isinstance(arg, range) else None
+    first = _try(lambda: csl.pitches_to_chord_symbol(arg))
+    # same argument object, second call (large sets are slow to name: every third of those)
+    twice = len(set(p % 12 for p in pitches)) <= 6 or _order(pitches, 3)[0] == 0
+    again = _try(lambda: csl.pitches_to_chord_symbol(arg)) if twice else first
+    if again != first:
+        return ['UNSTABLE', first, again]
+    if before is not None and (list(arg) != before or [type(x) for x in arg] != [type(x) for x in before]):
+        return ['ARG-MUTATED', before, [int(x) for x in arg]]
+    if first[0] == 'EXC':
+        return first
+    fig = first[1]
+    if not isinstance(fig, str):
+        return ['NOT-A-STRING', repr(fig)]
+    if not pitches:
+        return ['NO-CHORD', fig]
+    return ['OK', fig, _interp(fig)]
+
+
+def _impl(case):
     op, a = case['op'], case['input']
     if op == 'name':
-        try:
-            fig = csl.pitches_to_chord_symbol(list(a))
-        except Exception as e:  # noqa
-            return _exc(e)
-        if not a:
-            return ['NO-CHORD', fig]
-        return ['OK', fig, _interp(fig)]
+        return _name(list(a), list(a))
+    if op == 'namec':
+        return _name(_container(a[0], a[1]), a[1])
     if op == 'parse':
         return ['OK', _interp(a)]
     if op == 'pyset':
@@ -151,11 +244,24 @@ def impl(case):
     raise ValueError(op)
 
 
+def impl(case):
+    """Every call is bracketed by a fingerprint of the module-level tables: a call that edits them is reported
+    (once: the baseline then moves on, so that the replay names the call that did it)."""
+    if _TABLES[0] is None:
+        _TABLES[0] = _tables_fp()
+    out = _impl(case)
+    fp = _tables_fp()
+    if fp != _TABLES[0]:
+        _TABLES[0] = fp
+        return ['TABLES-MUTATED', out]
+    return out
+
+
 # ---------------------------------------------------------------- model side
 def model_input(case):
     op, a = case['op'], case['input']
-    if op == 'name':
-        return [1, list(a)]
+    if op in ('name', 'namec'):
+        return [1, _as_iterated(case)]
     if op == 'parse':
         try:
             root, kind, mods, bass = _lex(a)
@@ -182,7 +288,7 @@ def _minterp(m):
 
 def model_output(case, m):
     op = case['op']
-    if op == 'name':
+    if op in ('name', 'namec'):
         if m[0] == -1000:
             return ['EXC', EXN.get(m[1], 'code%d' % m[1])]
         if m[0] == 1:
@@ -223,37 +329,134 @@ def _consistency(fig, interp):
     return None
 
 
+def _pitch_class_end(fig, i):
+    """End of a pitch class [A-G](#*|b*)(?![#b]) starting at i, or None."""
+    n = len(fig)
+    if i >= n or fig[i] not in 'ABCDEFG':
+        return None
+    j = i + 1
+    if j < n and fig[j] in '#b':
+        ch = fig[j]
+        while j < n and fig[j] == ch:
+            j += 1
+        if j < n and fig[j] in '#b':
+            return None
+    return j
+
+
+def grammatical(fig):
+    """Independent recogniser of the documented chord grammar (module docstring of chord_symbols_lib): root, one of
+    the abbreviations of _CHORD_KINDS, zero or more modifications (optional parentheses, a prefix of
+    _DEGREE_MODIFICATIONS, decimal digits), optional '/' + bass.  Built from the regenerated tables, not from the
+    library's regular expressions."""
+    from note_seq import chord_symbols_lib as csl
+    abbrevs = set(ab for abs_, _ in csl._CHORD_KINDS for ab in abs_)
+    prefixes = list(csl._DEGREE_MODIFICATIONS)
+    if not isinstance(fig, str):
+        return False
+    if fig.endswith('\n'):          # '$' of the library's pattern also matches before one trailing newline
+        fig = fig[:-1]
+    n = len(fig)
+    r = _pitch_class_end(fig, 0)
+    if r is None:
+        return False
+    for ab in abbrevs:
+        if not fig.startswith(ab, r):
+            continue
+        seen = set([r + len(ab)])
+        todo = [r + len(ab)]
+        while todo:
+            p = todo.pop()
+            if p == n:
+                return True
+            if fig[p] == '/' and _pitch_class_end(fig, p + 1) == n:
+                return True
+            for start in ((p, p + 1) if fig[p] == '(' else (p,)):
+                for pre in prefixes:
+                    if fig.startswith(pre, start):
+                        d = start + len(pre)
+                        k = d
+                        while k < n and fig[k] in '0123456789':
+                            k += 1
+                        if k > d:
+                            for e in ((k, k + 1) if k < n and fig[k] == ')' else (k,)):
+                                if e not in seen:
+                                    seen.add(e)
+                                    todo.append(e)
+    return False
+
+
+def _unstable(interp):
+    for name, r in zip(('root', 'bass', 'pitches', 'quality'), interp):
+        if r and r[0] == 'UNSTABLE':
+            return name
+    return None
+
+
+def _acceptance(fig, interp):
+    """A figure outside the grammar is rejected by all four functions with exactly ChordSymbolError; a figure of the
+    grammar always has a root and a bass."""
+    root, bass, pitches, quality = interp
+    if grammatical(fig):
+        for name, r in (('root', root), ('bass', bass)):
+            if r[0] != 'OK':
+                return {'kind': 'parse-grammatical-figure-rejected', 'figure': fig, 'function': name, 'got': r}
+    else:
+        for name, r in zip(('root', 'bass', 'pitches', 'quality'), interp):
+            if r != ['EXC', 'ChordSymbolError']:
+                return {'kind': 'parse-ungrammatical-figure-not-rejected', 'figure': fig, 'function': name, 'got': r}
+    return None
+
+
 def oracle(case, io):
     op, a = case['op'], case['input']
-    if op == 'name':
+    if io and io[0] == 'TABLES-MUTATED':
+        return {'kind': 'module-table-mutated', 'op': op, 'input': a}
+    if op in ('name', 'namec'):
+        pitches_in = list(a) if op == 'name' else list(a[1])
+        cont = 'list' if op == 'name' else a[0]
+        if io[0] == 'UNSTABLE':
+            return {'kind': 'name-repeated-call-differs', 'pitches': pitches_in, 'container': cont,
+                    'first': io[1], 'second': io[2]}
+        if io[0] == 'ARG-MUTATED':
+            return {'kind': 'name-argument-mutated', 'pitches': pitches_in, 'container': cont, 'after': io[2]}
         if io[0] == 'EXC':
             if io[1] != 'ChordSymbolError':
-                return {'kind': 'name-foreign-exception', 'pitches': list(a), 'exception': io[1]}
+                return {'kind': 'name-foreign-exception', 'pitches': pitches_in, 'container': cont, 'exception': io[1]}
+            if not pitches_in:
+                return {'kind': 'name-empty-not-no-chord', 'container': cont}
             return None
         if io[0] == 'NO-CHORD':
+            from note_seq import constants
+            if io[1] != constants.NO_CHORD:
+                return {'kind': 'name-empty-not-no-chord', 'container': cont, 'got': io[1]}
             return None
         if io[0] != 'OK':
             return {'kind': 'harness-exception', 'detail': io}
         fig, interp = io[1], io[2]
+        if _unstable(interp):
+            return {'kind': 'parse-repeated-call-differs', 'figure': fig, 'function': _unstable(interp)}
         root, bass, pitches, quality = interp
-        want = sorted(set(p % 12 for p in a))
-        want_bass = min(a) % 12
+        want = sorted(set(p % 12 for p in pitches_in))
+        want_bass = min(pitches_in) % 12
         if pitches[0] != 'OK' or bass[0] != 'OK' or root[0] != 'OK' or quality[0] != 'OK':
-            return {'kind': 'name-not-accepted-by-parser', 'pitches': list(a), 'figure': fig,
+            return {'kind': 'name-not-accepted-by-parser', 'pitches': pitches_in, 'container': cont, 'figure': fig,
                     'pitch_classes': want, 'bass': want_bass}
         got = sorted(set(pitches[1]) | set([bass[1]]))
         if got != want or bass[1] != want_bass:
-            return {'kind': 'name-roundtrip-mismatch', 'pitches': list(a), 'figure': fig,
+            return {'kind': 'name-roundtrip-mismatch', 'pitches': pitches_in, 'container': cont, 'figure': fig,
                     'pitch_classes': want, 'bass': want_bass, 'denoted': got, 'denoted_bass': bass[1]}
-        return _consistency(fig, interp)
+        return _consistency(fig, interp) or _acceptance(fig, interp)
     if op == 'parse':
-        return _consistency(a, io[1])
+        if _unstable(io[1]):
+            return {'kind': 'parse-repeated-call-differs', 'figure': a, 'function': _unstable(io[1])}
+        return _consistency(a, io[1]) or _acceptance(a, io[1])
     return None
 
 
 def nontrivial(case, io):
     op = case['op']
-    if op == 'name':
+    if op in ('name', 'namec'):
         return io[0] == 'OK'
     if op == 'parse':
         return io[0] == 'OK' and io[1][2][0] == 'OK'
@@ -274,6 +477,26 @@ def _layout(rng, order, bass, mode):
         for _ in range(rng.randint(1, 4)):
             pc = rng.choice(order)
             out.append(base + 12 * rng.randint(0 if pc == bass else 1, 5) + pc)
+    return out
+
+
+def _wild(rng, S, bass):
+    """Any octaves incl. negative pitches, pitches above 127 and far outside the MIDI range, the range ends 0/127/128
+    where they fit, doublings anywhere in the list, arbitrary order; the lowest pitch has class `bass`."""
+    lo_oct = rng.choice([-40, -11, -2, -1, 0, 0, 1, 5, 9, 10, 11, 10 ** 6, -10 ** 17, 10 ** 28])
+    out = [12 * lo_oct + bass]
+    for pc in S:
+        if pc == bass and rng.random() < 0.5:
+            continue
+        for _ in range(rng.choice([1, 1, 1, 2, 3])):
+            o = lo_oct + rng.choice([0, 1, 1, 2, 3, 7, 11, 40]) if pc > bass or rng.random() < 0.5 else \
+                lo_oct + rng.choice([1, 2, 5, 12])
+            if pc <= bass and o == lo_oct and pc != bass:
+                o += 1
+            out.append(12 * o + pc)
+    first = out[0]
+    rng.shuffle(out)
+    assert min(out) == first and set(p % 12 for p in out) == set(S)
     return out
 
 
@@ -308,12 +531,23 @@ def corpus():
         [], [60], [60, 49], [60, 71], [60, 64, 67], [59, 62, 67], [53, 60, 64, 67, 70], [67, 71, 72, 74, 77],
         list(range(60, 72)), [48, 61, 69], [48, 69, 61], [-1, -13, 0], [60, 64, 67, 71], [60, 70], [60, 69, 75],
         [62, 60, 64, 67], [60, 62, 64, 67], [49, 60, 64, 68], [60, 63, 66, 69], [57, 60, 64, 67], [60, 60, 72],
-        [62, 66, 69, 76], [60, 62, 67, 71], [60, 62, 67, 70], [12, 1])]
+        [62, 66, 69, 76], [60, 62, 67, 71], [60, 62, 67, 70], [12, 1],
+        [0], [127], [128], [0, 127], [1, 128], [0, 4, 7], [120, 124, 127], [-12, -8, -5], [-1], [131, 128, 135, 140],
+        [10 ** 30, 10 ** 30 + 4, 10 ** 30 + 7], [-10 ** 20 + 1, 5, 9], [60] * 7, [72, 60, 72, 60], [36, 49, 50, 51, 52])]
+    out += [{'op': 'namec', 'input': [k, p]} for k, p in (
+        ('tuple', []), ('set', []), ('frozenset', []), ('range', []), ('dictkeys', []), ('npints', []),
+        ('tuple', [60, 64, 67]), ('set', [60, 64, 67]), ('frozenset', [67, 64, 60]), ('npints', [60, 64, 67]),
+        ('set', [48, 61, 69]), ('set', [69, 61, 48]), ('tuple', [48, 69, 61]), ('range', [60, 61, 62]),
+        ('range', [-3, -2, -1, 0, 1]), ('dictkeys', [64, 60, 67, 60]), ('set', [0, 127, 128, 8, 16, 24]),
+        ('frozenset', [-1, -13, 0, 95]), ('npints', [10 ** 30, 4, 7]), ('set', list(range(40, 52))))]
     out += [{'op': 'parse', 'input': f} for f in (
         ('C', 'Cm', 'C+', 'Co', 'C7', 'D7b9', 'C-(M7)', 'G(add2)(#5)', 'Abm7/Cb', 'D##5(add6)', 'F(b7)(#9)(b13)',
         'Cped(add7)', 'Cped(add#7)', 'Cped(addb7)', 'C7(add7)', 'C(no3)', 'C(no4)', 'Csus(add3)', 'C6/9', 'C6/9/E',
         'Cm7b5', 'Cm7(b5)', 'C(b5)', 'C(#5)', 'Cm(b5)', 'C(add0)', 'C(add14)', 'C(no1)', 'C(b1)', 'C(#3)', 'C/o7',
-         'C(add2', 'Cadd2)', 'C(b5(#9)', 'Cno5)(b9') + tuple(BAD_FIGURES))]
+         'C(add2', 'Cadd2)', 'C(b5(#9)', 'Cno5)(b9', 'C\n', 'C7(add9)(add9)', 'C7(#9)(b5)(no3)(no3)',
+         'C(add2)(no4)', 'Cm7(b5)(add11)(add7)', 'C(no1)', 'Cm(#1)', 'Bb+(b1)/E', 'Co(no1)', 'C(add09)',
+         'C(add100000000000000000000)', 'C##', 'Cbb', 'C##m7/Fbb', 'Ebbbmaj7/G###', 'Cb5', 'Cb5(b5)', 'C(b5)/Cb',
+         'C/C', 'C/B#', 'B#/C', 'Cm/o7', 'C/o', 'C-/o7/G', 'C6/9/Gb') + tuple(BAD_FIGURES))]
     out += [{'op': 'pyset', 'input': l} for l in ([], [0], [8, 0], [0, 8], [3, 11, 0, 8], [11, 3, 8, 0], [9, 1, 2, 10, 0],
                                                    [0, 8, 0, 8], [11, 10, 9, 8, 7, 6, 5, 4, 3, 2, 1, 0])]
     return out
@@ -349,9 +583,54 @@ def cases(rng, tier, n=None):
         small = [list(seq) for k in range(1, 5) for seq in itertools.permutations(range(12), k)]
         for seq in [s for s in small if len(s) <= 2] + rng.sample(small, 1500):
             out.append({'op': 'name', 'input': _layout(rng, seq, rng.choice(seq), 0)})
+    # wild layouts (negative, > 127, huge, doublings anywhere, unsorted) and every container type
+    for S in (sets if thorough else rng.sample(sets, 700)):
+        for b in (S if thorough else [rng.choice(S)]):
+            out.append({'op': 'name', 'input': _wild(rng, S, b)})
+    for S in rng.sample(sets, 4095 if thorough else 900):
+        kind = rng.choice([k for k in _CONTAINERS if k != 'range'])
+        b = rng.choice(S)
+        pitches = _wild(rng, S, b) if rng.random() < 0.5 else _layout(rng, rng.sample(S, len(S)), b, 2)
+        out.append({'op': 'namec', 'input': [kind, pitches]})
+    for _ in range(300 if thorough else 60):
+        lo = rng.choice([-14, -1, 0, 55, 60, 120, 127, 128, 1000])
+        out.append({'op': 'namec', 'input': ['range', list(range(lo, lo + rng.randint(0, 7)))]})
+    # the same set under every bass in consecutive calls (a result cached per set would show)
+    for S in rng.sample(sets, 600 if thorough else 120):
+        order = rng.sample(S, len(S))
+        for b in S:
+            out.append({'op': 'name', 'input': _layout(rng, order, b, 1)})
     # --- parse ---
     abbrevs = list(csl._CHORD_KINDS_BY_ABBREV)
     prefixes = list(csl._DEGREE_MODIFICATIONS)
+    # every root spelling x every bass spelling (incl. double / triple / 13-fold accidentals)
+    for r in ROOTS:
+        out.append({'op': 'parse', 'input': r})
+        for b in ROOTS:
+            out.append({'op': 'parse', 'input': r + rng.choice(abbrevs) + '/' + b})
+    # rejection after valid modifications: 0..3 alterations (never rejected), then an add of a degree the kind has /
+    # a subtraction of a degree it lacks, then optionally more
+    for abbrevs_, degs in csl._CHORD_KINDS:
+        have = sorted(set(csl._parse_degree(d)[0] for d in degs))
+        lack = [d for d in (1, 2, 3, 4, 5, 6, 7, 9, 11, 13) if d not in have]
+        for k in range(4):
+            pre = ''.join('(%s%d)' % (rng.choice(['#', 'b']), rng.choice([9, 11, 13, 5])) for _ in range(k))
+            post = rng.choice(['', '(add2)', '(no5)', '/G'])
+            ab = rng.choice(abbrevs_)
+            out.append({'op': 'parse', 'input': rng.choice(ROOTS[:21]) + ab + pre + '(add%d)' % rng.choice(have) + post})
+            if lack:
+                out.append({'op': 'parse', 'input': rng.choice(ROOTS[:21]) + ab + pre + '(no%d)' % rng.choice(lack) + post})
+            out.append({'op': 'parse', 'input': rng.choice(ROOTS[:21]) + ab + pre + '(add9)' * 2 + post})
+    # two-step use: the pitches a figure denotes (bass below) are named again
+    for _ in range(3000 if thorough else 400):
+        f = _figure(rng, abbrevs, prefixes)
+        try:
+            ps = [int(x) for x in csl.chord_symbol_pitches(f)]
+            b = int(csl.chord_symbol_bass(f))
+        except Exception:  # noqa  (rejected figure, or a broken interpreter: the parse cases report that)
+            continue
+        if ps and all(0 <= x <= 11 for x in ps + [b]):
+            out.append({'op': 'name', 'input': [36 + b] + [48 + x for x in ps]})
     for ab in abbrevs:                                   # every abbreviation, bare and with each single modification
         out.append({'op': 'parse', 'input': 'C' + ab})
         for p in prefixes:
@@ -372,6 +651,10 @@ def cases(rng, tier, n=None):
                 out.append({'op': 'pyset', 'input': list(seq)})
     for _ in range(5000 if thorough else 1200):
         out.append({'op': 'pyset', 'input': [rng.randrange(12) for _ in range(rng.randint(0, 14))]})
+    # all operations interleaved in one process, then the first cases once more after everything else has run
+    # (the model is stateless, so a result that depends on an earlier call diverges from it)
+    rng.shuffle(out)
+    out += [dict(c) for c in out[:1000 if thorough else 300]]
     if n is not None:
         step = max(1, len(out) // max(n, 1))
         out = out[::step][:n]
@@ -389,6 +672,15 @@ def shrink(case):
         for i, p in enumerate(a):
             if p - 12 > lo:
                 yield {'op': op, 'input': a[:i] + [p - 12] + a[i + 1:]}
+    elif op == 'namec':
+        kind, ps = a
+        if kind != 'range':
+            yield {'op': 'name', 'input': list(ps)}
+            for i in range(len(ps)):
+                yield {'op': op, 'input': [kind, ps[:i] + ps[i + 1:]]}
+        else:
+            yield {'op': op, 'input': [kind, ps[:-1]]}
+            yield {'op': op, 'input': [kind, ps[1:]]}
     elif op == 'parse':
         for i in range(len(a)):
             yield {'op': op, 'input': a[:i] + a[i + 1:]}
